@@ -227,8 +227,8 @@ Proof.
   intros Henc Hwc Hwa Hwm. unfold encoding_ok in Henc. unfold import_texts.
   assert (Himplicit :
     exists im d, decode_implicit c = Ok (d, im)
-      /\ decode_using (export_codec env None im) c = Ok d
-      /\ modelled (export_codec env None im)).
+      /\ decode_using (implicit_codec env im) c = Ok d
+      /\ modelled (implicit_codec env im)).
   { unfold decode_implicit.
     destruct (decode_using_utf8_cases c) as [[d Hd]|He].
     - rewrite Hd. cbn [is_ude bind]. exists None, d.
@@ -236,25 +236,31 @@ Proof.
     - rewrite He. cbn [is_ude]. cbn [String.eqb Ascii.eqb Bool.eqb].
       destruct (decode_using_latin1_ok c) as [d Hd]. rewrite Hd. cbn [bind].
       exists (Some (bs "latin1")), d. split; [reflexivity|].
-      cbn [export_codec]. rewrite lookup_latin1. split; [exact Hd|right; reflexivity]. }
+      cbn [implicit_codec]. rewrite lookup_latin1. split; [exact Hd|right; reflexivity]. }
   destruct (c_encoding c) as [e|] eqn:Hce.
-  - apply andb_prop in Henc. destruct Henc as [Henc Hcd].
-    apply andb_prop in Henc. destruct Henc as [Hasc Hnf].
+  - apply andb_prop in Henc. destruct Henc as [Hasc Hcd].
     rewrite Hasc. cbn [bind].
-    apply negb_true_iff in Hnf. rewrite Hnf.
-    assert (Hd : (exists d, decode_using (lookup env e) c = Ok d) /\ modelled (lookup env e)).
-    { destruct (lookup env e); try discriminate.
-      - split; [apply decode_using_utf8_valid; exact Hcd|left; reflexivity].
-      - split; [apply decode_using_latin1_ok|right; reflexivity]. }
-    destruct Hd as [[[[tc ta] tm] Hd] Hmd].
-    rewrite Hd. cbn [bind fst snd].
-    exists None, tc, ta, tm. split; [reflexivity|]. split; [reflexivity|].
     cbn [export_codec].
-    apply decode_using_spec; assumption.
+    destruct (bytes_eqb e (bs "false")) eqn:Hnf.
+    + (* "encoding false": import and export both use the implicit codec *)
+      destruct Himplicit as (im & [[tc ta] tm] & Hdi & Hdu & Hmd).
+      rewrite Hdi. cbn [bind fst snd].
+      exists im, tc, ta, tm. split; [reflexivity|]. split; [reflexivity|].
+      apply decode_using_spec; assumption.
+    + cbn [orb] in Hcd.
+      assert (Hd : (exists d, decode_using (lookup env e) c = Ok d) /\ modelled (lookup env e)).
+      { destruct (lookup env e); try discriminate.
+        - split; [apply decode_using_utf8_valid; exact Hcd|left; reflexivity].
+        - split; [apply decode_using_latin1_ok|right; reflexivity]. }
+      destruct Hd as [[[[tc ta] tm] Hd] Hmd].
+      rewrite Hd. cbn [bind fst snd].
+      exists None, tc, ta, tm. split; [reflexivity|]. split; [reflexivity|].
+      apply decode_using_spec; assumption.
   - cbn [bind].
     destruct Himplicit as (im & [[tc ta] tm] & Hdi & Hdu & Hmd).
     rewrite Hdi. cbn [bind fst snd].
     exists im, tc, ta, tm. split; [reflexivity|]. split; [exact I|].
+    cbn [export_codec].
     apply decode_using_spec; assumption.
 Qed.
 
@@ -293,53 +299,31 @@ Lemma nonnil_match (t : text) :
 Proof. destruct t; [congruence|reflexivity]. Qed.
 
 (* ------------------------------------------------------------------ extras *)
-Definition plain (b : N) : bool :=
-  negb (b =? 13) && negb (is_brk1 b) && negb (b =? 194) && negb (b =? 226).
-
-Lemma brk_len_plain (b : N) (r : bytes) : plain b = true -> brk_len (b :: r) = O.
+Lemma split1_aux_line (l rest cur : bytes) :
+  memb NL l = false ->
+  split1_aux NL cur (l ++ NL :: rest) = (rev cur ++ l) :: split1_aux NL [] rest.
 Proof.
-  unfold plain. intros H.
-  apply andb_prop in H. destruct H as [H H4]. apply andb_prop in H. destruct H as [H H3].
-  apply andb_prop in H. destruct H as [H1 H2].
-  apply negb_true_iff in H1, H2, H3, H4.
-  unfold brk_len. rewrite H1, H2, H3, H4. reflexivity.
-Qed.
-
-Lemma no_brk_prefix (k v : bytes) : forallb plain k = true -> no_brk (k ++ v) = no_brk v.
-Proof.
-  induction k as [|b k IH]; intros H; [reflexivity|].
-  cbn [forallb] in H. apply andb_prop in H. destruct H as [Hb Hk].
-  cbn [app no_brk]. rewrite (brk_len_plain b (k ++ v) Hb). cbn [Nat.eqb andb].
-  apply IH. exact Hk.
-Qed.
-
-Lemma brk_len_app (b : N) (l rest : bytes) :
-  brk_len (b :: l) = O -> brk_len (b :: l ++ NL :: rest) = O.
-Proof.
-  unfold brk_len.
-  destruct (b =? 13).
-  { destruct l as [|c l]; [discriminate|]. destruct (c =? 10); discriminate. }
-  destruct (is_brk1 b); [discriminate|].
-  destruct (b =? 194).
-  { destruct l as [|c l]; [reflexivity|]. cbn [app]. exact (fun H => H). }
-  destruct (b =? 226); [|reflexivity].
-  destruct l as [|c [|d l]]; cbn [app].
-  - destruct rest; reflexivity.
-  - intros _. rewrite andb_false_r. reflexivity.
-  - exact (fun H => H).
-Qed.
-
-Lemma splitlines_line (l rest cur : bytes) :
-  no_brk l = true ->
-  splitlines_aux O cur (l ++ NL :: rest) = (rev cur ++ l) :: splitlines_aux O [] rest.
-Proof.
-  revert cur. induction l as [|b l IH]; intros cur H.
-  - cbn [app]. rewrite app_nil_r. reflexivity.
-  - cbn [no_brk] in H. apply andb_prop in H. destruct H as [Hb Hl].
-    apply Nat.eqb_eq in Hb.
-    change ((b :: l) ++ NL :: rest) with (b :: l ++ NL :: rest).
-    cbn [splitlines_aux]. rewrite (brk_len_app b l rest Hb).
+  unfold memb. revert cur. induction l as [|b l IH]; intros cur H.
+  - cbn [app split1_aux]. rewrite N.eqb_refl, app_nil_r. reflexivity.
+  - cbn [existsb] in H. apply orb_false_iff in H. destruct H as [Hb Hl].
+    cbn [app split1_aux]. rewrite N.eqb_sym, Hb.
     rewrite (IH (b :: cur) Hl). cbn [rev]. rewrite <- app_assoc. reflexivity.
+Qed.
+
+Lemma split1_aux_last (l cur : bytes) :
+  memb NL l = false -> split1_aux NL cur l = [rev cur ++ l].
+Proof.
+  unfold memb. revert cur. induction l as [|b l IH]; intros cur H.
+  - cbn [split1_aux]. rewrite app_nil_r. reflexivity.
+  - cbn [existsb] in H. apply orb_false_iff in H. destruct H as [Hb Hl].
+    cbn [split1_aux]. rewrite N.eqb_sym, Hb.
+    rewrite (IH (b :: cur) Hl). cbn [rev]. rewrite <- app_assoc. reflexivity.
+Qed.
+
+Lemma remove_suffix_nl_app (body : bytes) : remove_suffix_nl (body ++ [NL]) = body.
+Proof.
+  unfold remove_suffix_nl. rewrite rev_app_distr. cbn [rev app].
+  rewrite N.eqb_refl. apply rev_involutive.
 Qed.
 
 Lemma break_at_app (c : N) (k v : bytes) :
@@ -363,10 +347,10 @@ Qed.
 
 Lemma extra_ok_key (k v : bytes) :
   extra_ok (k, v) = true ->
-  (k = HG_RENAME_SOURCE \/ k = HG_EXTRA) /\ no_brk v = true.
+  (k = HG_RENAME_SOURCE \/ k = HG_EXTRA) /\ memb NL v = false.
 Proof.
   unfold extra_ok. intros H. apply andb_prop in H. destruct H as [Hk Hv].
-  split; [|exact Hv].
+  split; [|apply negb_true_iff; exact Hv].
   apply orb_prop in Hk. destruct Hk as [Hk|Hk].
   - left. apply beqb_true. exact Hk.
   - right. apply andb_prop in Hk. destruct Hk as [Hk _]. apply beqb_true. exact Hk.
@@ -386,29 +370,61 @@ Proof.
     rewrite Hhg, IH. reflexivity.
 Qed.
 
-Lemma export_extra_ok (ex : list (bytes * bytes)) :
-  forallb extra_ok ex = true -> export_extra (splitlines (lines_of ex)) = Ok ex.
+Definition line_of (kv : bytes * bytes) : text := fst kv ++ SP :: snd kv.
+
+Lemma line_of_no_nl (k v : bytes) : extra_ok (k, v) = true -> memb NL (line_of (k, v)) = false.
 Proof.
-  unfold splitlines.
-  induction ex as [|[k v] ex IH]; intros H; [reflexivity|].
-  cbn [forallb] in H. apply andb_prop in H. destruct H as [Hkv Hex].
-  specialize (IH Hex). destruct (extra_ok_key k v Hkv) as [Hk Hv].
-  rewrite lines_of_cons.
-  assert (Hnb : no_brk (k ++ SP :: v) = true).
-  { change (k ++ SP :: v) with (k ++ [SP] ++ v). rewrite app_assoc.
-    rewrite no_brk_prefix; [exact Hv|].
-    destruct Hk as [-> | ->]; reflexivity. }
-  rewrite (splitlines_line _ _ [] Hnb). cbn [rev app export_extra].
-  rewrite break_at_app by (destruct Hk as [-> | ->]; reflexivity).
-  rewrite IH. reflexivity.
+  intros H. destruct (extra_ok_key k v H) as [Hk Hv].
+  unfold line_of, memb. cbn [fst snd]. rewrite existsb_app. cbn [existsb].
+  fold (memb NL v). rewrite Hv.
+  destruct Hk as [-> | ->]; reflexivity.
 Qed.
 
-Lemma p_extra_roundtrip (L : text) :
-  match (match L with [] => None | n :: l => Some (n :: l) end) with
-  | Some t => splitlines t
-  | None => []
-  end = splitlines L.
-Proof. destruct L; reflexivity. Qed.
+(* the text written by import ends with "\n"; without it, splitting at "\n" gives the lines back *)
+Lemma lines_of_split (ex : list (bytes * bytes)) :
+  ex <> [] -> forallb extra_ok ex = true ->
+  exists body, lines_of ex = body ++ [NL] /\ split1 NL body = map line_of ex.
+Proof.
+  induction ex as [|[k v] ex IH]; intros Hne H; [congruence|].
+  cbn [forallb] in H. apply andb_prop in H. destruct H as [Hkv Hex].
+  pose proof (line_of_no_nl k v Hkv) as Hnl. unfold line_of in Hnl. cbn [fst snd] in Hnl.
+  rewrite lines_of_cons.
+  destruct ex as [|kv' ex'].
+  - exists (k ++ SP :: v). split; [reflexivity|].
+    unfold split1. rewrite (split1_aux_last _ [] Hnl). reflexivity.
+  - destruct (IH ltac:(discriminate) Hex) as (body' & Hb & Hs).
+    exists ((k ++ SP :: v) ++ NL :: body'). split.
+    + rewrite Hb. symmetry. rewrite <- app_assoc. reflexivity.
+    + unfold split1 in *. rewrite (split1_aux_line _ _ [] Hnl). rewrite Hs. reflexivity.
+Qed.
+
+Lemma export_extra_lines (ex : list (bytes * bytes)) :
+  forallb extra_ok ex = true -> export_extra (map line_of ex) = Ok ex.
+Proof.
+  induction ex as [|[k v] ex IH]; intros H; [reflexivity|].
+  cbn [forallb] in H. apply andb_prop in H. destruct H as [Hkv Hex].
+  destruct (extra_ok_key k v Hkv) as [Hk _].
+  cbn [map export_extra]. unfold line_of at 1. cbn [fst snd].
+  rewrite break_at_app by (destruct Hk as [-> | ->]; reflexivity).
+  rewrite (IH Hex). reflexivity.
+Qed.
+
+Lemma export_extra_ok (ex : list (bytes * bytes)) :
+  forallb extra_ok ex = true ->
+  export_extra (match (match lines_of ex with [] => None | n :: l => Some (n :: l) end) with
+                | Some t => extra_lines t
+                | None => []
+                end) = Ok ex.
+Proof.
+  intros H. destruct ex as [|kv ex'] eqn:E; [reflexivity|].
+  rewrite <- E in *.
+  destruct (lines_of_split ex ltac:(subst; discriminate) H) as (body & Hb & Hs).
+  assert (Hl : lines_of ex = body ++ [NL]) by exact Hb.
+  destruct (lines_of ex) as [|n l] eqn:El.
+  - destruct body; discriminate.
+  - rewrite Hl. unfold extra_lines. rewrite remove_suffix_nl_app, Hs.
+    apply export_extra_lines. exact H.
+Qed.
 
 (* ------------------------------------------------------------------ parents and revision ids *)
 Lemma parent_lookup_revid (p : bytes) : parent_lookup (revid_foreign_to_bzr p) = Ok p.
@@ -464,7 +480,6 @@ Theorem export_import_id env (c : commit) :
 Proof.
   intros G. unfold rt_guard in G.
   apply andb_prop in G. destruct G as [G Hex].
-  apply andb_prop in G. destruct G as [G Hmsg].
   apply andb_prop in G. destruct G as [G Hida].
   apply andb_prop in G. destruct G as [G Hidc].
   apply andb_prop in G. destruct G as [Hwf Henc].
@@ -478,8 +493,6 @@ Proof.
   { destruct (c_message c); [exact Hwm|exact I]. }
   destruct (import_texts_ok env c Henc Hwc Hwa Hwm')
     as (im & tc & ta & tm & Htexts & Hasc & Hrc & Hra & Hrm).
-  destruct (c_message c) as [m|] eqn:Hm; [|discriminate].
-  destruct tm as [t|]; [|contradiction].
   pose proof (import_extra_ok _ Hex) as Hie.
   destruct (serialise_some c Htza Htzc) as [s Hs].
   set (cd := export_codec env (c_encoding c) im) in *.
@@ -488,7 +501,6 @@ Proof.
   { subst fa. destruct ta as [a|]; [exact Hra|]. rewrite Hra. exact Hrc. }
   destruct (export_ident cd tc _ Hrc Hidc) as (Hec & _ & _).
   destruct (export_ident cd fa _ Hfa Hida) as (Hea & Hcut & Hne).
-  destruct Hrm as (Hem & _ & _).
   eexists. split.
   - unfold import_commit. rewrite Htexts. cbn [bind fst snd].
     rewrite Hie. cbn [bind fst snd]. rewrite Hs. reflexivity.
@@ -504,9 +516,15 @@ Proof.
     rewrite Hec. cbn [bind].
     rewrite (nonnil_match fa Hne). cbn [bind].
     rewrite Hcut, Hea. cbn [bind].
-    rewrite Hem. cbn [bind].
-    rewrite p_extra_roundtrip. rewrite (export_extra_ok _ Hex). cbn [bind].
-    f_equal. unfold norm, opt_nonempty. rewrite Hm.
+    match goal with |- bind ?X _ = _ => assert (Hmsg : X = Ok (c_message c)) end.
+    { destruct tm as [t|], (c_message c) as [m|]; try contradiction.
+      - destruct Hrm as (Hem & _ & _). cbn [bind]. rewrite Hem. reflexivity.
+      - reflexivity. }
+    rewrite Hmsg. cbn [bind].
+    match goal with |- bind ?X _ = _ =>
+      assert (Hx : X = Ok (c_extra c)) by (exact (export_extra_ok _ Hex)) end.
+    rewrite Hx. cbn [bind].
+    f_equal. unfold norm, opt_nonempty.
     f_equal.
     + destruct (Z.eqb_spec (c_commit_time c) (c_author_time c)) as [E|E]; [exact E|reflexivity].
     + destruct (Z.eqb_spec (c_commit_tz c) (c_author_tz c)) as [E|E]; [exact E|reflexivity].
@@ -521,7 +539,7 @@ Proof.
   intros G. destruct (export_import_id env c G) as (r & Hi & He).
   assert (Hs : exists s, serialise c = Some s).
   { unfold rt_guard, wf_commit in G.
-    do 8 (apply andb_prop in G; destruct G as [G _]).
+    do 7 (apply andb_prop in G; destruct G as [G _]).
     apply andb_prop in G. destruct G as [G Htzc].
     apply andb_prop in G. destruct G as [_ Htza].
     apply serialise_some; assumption. }
@@ -582,19 +600,16 @@ Definition w_two_authors := wit (bs "A <a>, B <b>") (bs "C <c>") None [] (Some (
 Definition w_ident_no_lt := wit (bs "Joe>") (bs "C <c>") None [] (Some (bs "m")).
 Definition w_extra_cr :=
   wit (bs "A <a>") (bs "C <c>") None [(bs "HG:extra", bs "source:a" ++ [13] ++ bs "b")] (Some (bs "m")).
+Definition w_extra_nl :=
+  wit (bs "A <a>") (bs "C <c>") None [(bs "HG:extra", bs "topic:a" ++ [10] ++ bs "b")] (Some (bs "m")).
 
-Lemma missing_message_refuted env :
-  not_roundtrip env w_missing_message = true
-  /\ export_error env w_missing_message = Some "AttributeError"%string.
-Proof. split; vm_compute; reflexivity. Qed.
-
-Lemma encoding_false_refuted env :
-  env (bs "false") = CUnknown ->
-  not_roundtrip env w_encoding_false = true
-  /\ export_error env w_encoding_false = Some "LookupError"%string.
-Proof.
-  intros H. cbv in H. split; cbv; rewrite H; reflexivity.
-Qed.
+(* the witnesses of the three repaired findings now satisfy the guard *)
+Lemma missing_message_guard env : rt_guard env w_missing_message = true.
+Proof. vm_compute. reflexivity. Qed.
+Lemma encoding_false_guard env : rt_guard env w_encoding_false = true.
+Proof. vm_compute. reflexivity. Qed.
+Lemma extra_cr_guard env : rt_guard env w_extra_cr = true.
+Proof. vm_compute. reflexivity. Qed.
 
 Lemma ident_nospace_refuted env :
   not_roundtrip env w_ident_nospace = true /\ export_error env w_ident_nospace = None.
@@ -609,9 +624,9 @@ Lemma ident_no_lt_refuted env :
   /\ export_error env w_ident_no_lt = Some "ValueError"%string.
 Proof. split; vm_compute; reflexivity. Qed.
 
-Lemma extra_cr_refuted env :
-  not_roundtrip env w_extra_cr = true
-  /\ export_error env w_extra_cr = Some "ValueError"%string.
+Lemma extra_nl_refuted env :
+  not_roundtrip env w_extra_nl = true
+  /\ export_error env w_extra_nl = Some "ValueError"%string.
 Proof. split; vm_compute; reflexivity. Qed.
 
 (* ------------------------------------------------------------------ which commits are rejected *)
